@@ -37,7 +37,8 @@ class StubPipeline:
         self.log.append(("resume", id(job), tee_output))
 
 
-_release = threading.Event()
+_released = set()  # tokens of last-stage aliases allowed to finish
+_release_all = threading.Event()
 
 
 class _BrokenStream:
@@ -52,8 +53,9 @@ class _BrokenStream:
 
 def _verif_wait(args, stdin=None, stdout=None, stderr=None):
     # a last-stage alias that stays alive until the driver lets the job end
+    token = args[0] if args else None
     t0 = time.time()
-    while not _release.is_set() and time.time() - t0 < 120:
+    while token not in _released and not _release_all.is_set() and time.time() - t0 < 120:
         time.sleep(0.01)
     return 0
 
@@ -142,7 +144,9 @@ def run(ctx, scn):
     XSH.env["AUTO_CONTINUE"] = False
     stubs = {}
     real_pids = []
-    _release.clear()
+    tokens = {}
+    _released.clear()
+    _release_all.clear()
     log = []
     steps = []
 
@@ -209,7 +213,8 @@ def run(ctx, scn):
             if len(remaining) >= maxjobs and a["kind"] != "alias":
                 truncated = True
                 break
-            src = {"proc": "sleep 300 &", "proc|proc": "sleep 300 | sleep 301 &", "proc|alias": "sleep 300 | verif_wait &",
+            token = f"tok{len(steps)}"
+            src = {"proc": "sleep 300 &", "proc|proc": "sleep 300 | sleep 301 &", "proc|alias": f"sleep 300 | verif_wait {token} &",
                    "alias|proc": "verif_quick | sleep 300 &", "alias": "verif_quick &"}[a["kind"]]
             before = dict(XSH.all_jobs)
             g = {}
@@ -218,13 +223,14 @@ def run(ctx, scn):
             sel = new[0] if new else 0
             for k in new:
                 real_pids.extend(p for p in XSH.all_jobs[k]["pids"] if p)
+                tokens[id(XSH.all_jobs[k])] = token
         elif cmd == "exit":
             j = XSH.all_jobs.get(a["n"])
             if j is not None and not isinstance(j["obj"], StubProc):
                 if j["obj"].poll() is not None:
                     truncated = True
                     break
-                _release.set()
+                _released.add(tokens.get(id(j)))
                 for p in j["pids"]:
                     if p:
                         try:
@@ -234,7 +240,6 @@ def run(ctx, scn):
                 t0 = time.time()
                 while j["obj"].poll() is None and time.time() - t0 < 20:
                     time.sleep(0.01)
-                _release.clear()
                 if j["obj"].poll() is None:
                     raise RuntimeError("real job did not terminate")
             elif j is None or j["obj"].returncode is not None:
@@ -282,7 +287,7 @@ def run(ctx, scn):
         obs = {"tab": tab, "tasks": tasks, "failed": bool(rtn != 0 or (err or "").strip()), "out": listed, "sel": sel, "extra": extra}
         steps.append({"cmd": cmd, "arg": a, "ids": st.get("ids", []), "thr": thr, "obs": obs, "err": (err or "")[:120]})
     # clean up real children
-    _release.set()
+    _release_all.set()
     for p in real_pids:
         try:
             os.kill(p, signal.SIGKILL)
